@@ -66,14 +66,46 @@ def _cmp_calls(fn, blocks):
 
 
 def bounds_total(ctx, rule='C08.bounds-total'):
-    res = []
     try:
         (rn,) = ctx.need('<Range as Iterator>::next')
     except AnchorError as e:
         return [unresolved(rule, str(e))]
+    res = _bounds_total_of(ctx, rule, rn, stop=())
+    # any other method of the range type that drives the cursor itself (an overridden `last`, `nth`, a reverse iterator ...) is a second producer of
+    # entries and has to honour both bounds on its own; going through `next` inherits them
+    F = ctx.facts
+    nother = 0
+    for e in sorted(F.fns, key=lambda f: f.path):
+        if e is rn or e.kind == 'Closure' or e.self_adt != rn.self_adt:
+            continue
+        if not (e.trait or e.eff_pub):
+            continue
+        own = [g for g in F.reachable_fns([e], stop={rn}) if g.self_adt == rn.self_adt or (g.kind == 'Closure' and g.owner is not None and g.owner.self_adt == rn.self_adt)]
+        drives = []
+        for g in own:
+            for bb, t, target, c in F.call_sites(g):
+                if target is not None and target.self_adt and last_seg(target.self_adt) == 'Cursor' and target.name in ('seek', 'current', 'next', 'seek_first', 'seek_last', 'prev', 'last'):
+                    drives.append((g, bb, target))
+        if not drives:
+            continue
+        nother += 1
+        sub = _bounds_total_of(ctx, rule, e, stop={rn})
+        if any(not r.ok for r in sub):
+            g, bb, target = drives[0]
+            res.append(bad(rule, '%s | second producer does not apply both bounds' % e.qual,
+                           '%s positions the cursor itself (%s at %s) instead of going through Range::next, and does not match on both bounds the way next does (%s): it can yield an '
+                           'entry outside the range' % (e.qual, target.qual, g.loc(bb), '; '.join(r.key.split(' | ', 1)[-1] for r in sub if not r.ok)), where=g.loc(bb)))
+        else:
+            res.append(ok(rule, '%s drives the cursor itself and matches on both bounds' % e.qual, sites=1))
+    ctx.stats['range_producers_besides_next'] = nother
+    return res
+
+
+def _bounds_total_of(ctx, rule, rn, stop=()):
+    res = []
     du = ctx.du(rn)
     VAR = {0: 'Included', 1: 'Excluded', 2: 'Unbounded'}
-    scope = [rn] + sorted((g for g in ctx.facts.reachable_fns([rn]) if g is not rn and g.self_adt == rn.self_adt), key=lambda f: f.path)
+    scope = [rn] + sorted((g for g in ctx.facts.reachable_fns([rn], stop=set(stop)) if g is not rn and g.self_adt == rn.self_adt), key=lambda f: f.path)
     for method in ('start_bound', 'end_bound'):
         fn, sws = rn, []
         for g in scope:     # the match may have been extracted into a helper method of Range
@@ -123,6 +155,53 @@ def bounds_total(ctx, rule='C08.bounds-total'):
                 else:
                     res.append(ok(rule, '%s(): Included (%s) and Excluded (%s) have their own arms, read their payload and compare differently; Unbounded is separate'
                                   % (method, '/'.join(sorted(inc)), '/'.join(sorted(exc))), sites=3))
+    return res
+
+
+def end_justified(ctx, rule='C08.end-justified'):
+    """Range::next may end the iteration (return None) only because the cursor is exhausted or because the current key failed a comparison with a bound;
+    an end decided by anything else (a flag computed elsewhere, a counter) drops entries that lie inside the range"""
+    res = []
+    try:
+        (rn,) = ctx.need('<Range as Iterator>::next')
+    except AnchorError as e:
+        return [unresolved(rule, str(e))]
+    F = ctx.facts
+    n = 0
+    scope = [rn] + sorted((g for g in F.reachable_fns([rn]) if g is not rn and g.self_adt == rn.self_adt and g.locals[0]['ty'] == rn.locals[0]['ty']), key=lambda f: f.path)
+    for fn in scope:
+        du = ctx.du(fn)
+        for bb in sorted(fn.reachable_blocks()):
+            for si, st in enumerate(fn.blocks[bb]['stmts']):
+                if not (st['k'] == 'assign' and st['p']['l'] == 0 and not st['p']['pr'] and st['rv']['k'] == 'agg' and st['rv'].get('variant') == 'None'):
+                    continue
+                n += 1
+                just = []
+                ctrl = fn.control_deps_transitive(bb)
+                for (a, sx) in ctrl:
+                    at = fn.term(a)
+                    if at['k'] != 'switch':
+                        continue
+                    _, atoms = du.slice_operand(at['discr'])
+                    for x in atoms:
+                        if x[0] != 'call':
+                            continue
+                        nm = last_seg(strip_generics(x[2]))
+                        ct = fn.term(x[1])
+                        cc = callee_of(ct)
+                        if nm in CMP and cc and cc.get('trait') in ('std::cmp::PartialOrd', 'std::cmp::Ord', 'std::cmp::PartialEq'):
+                            just.append('comparison at %s' % fn.loc(x[1]))
+                        elif nm in ('next', 'current') and cc and 'Cursor' in (cc.get('self_ty') or ''):
+                            just.append('cursor %s at %s' % (nm, fn.loc(x[1])))
+                if just:
+                    res.append(ok(rule, 'None at %s follows %s' % (fn.loc(bb, si), just[0]), sites=1))
+                else:
+                    res.append(bad(rule, '%s | iteration ended without consulting cursor or bound' % fn.qual,
+                                   'Range::next returns None at %s although neither the end of the cursor nor a comparison of the current key with a bound controls that return '
+                                   '(controlled by: %s): entries inside the range are never yielded' % (fn.loc(bb, si), ', '.join(fn.loc(a) for a, _ in ctrl) or 'nothing'), where=fn.loc(bb, si)))
+    f = floor(rule, 'None returns of Range::next', n, 2)
+    if f:
+        res.append(f)
     return res
 
 
@@ -449,6 +528,7 @@ def index_agreement(ctx, rule='C08.index-agreement'):
 def run(ctx, tier):
     results = []
     results += bounds_total(ctx)
+    results += end_justified(ctx)
     results += start_compare(ctx)
     results += no_underflow(ctx)
     results += filter_total(ctx)
